@@ -9,7 +9,7 @@ pub fn prop() -> Prop {
     Prop {
         id: "C17",
         level: "exploration",
-        rule: "pad waveforms of 1..=700 samples (0..=8 response-shaped pulses of amplitude 1..1e4 at arbitrary positions incl. the last look-ahead samples, noise sigma in {0, 0.5, 3, 30}, integer-rounded and not): pad_deconvolution (hook) vs a naive one-sample-at-a-time greedy reference, bit for bit, plus finiteness / non-negativity / length; wire blocks of every length at every ring position with differing per-wire lengths: channel count, per-channel length, finiteness, non-negativity; isolated wire pulse of amplitude a at k <= len-18 on every wire: recovered a at k (rel. err < 1e-6), < 1e-6 a elsewhere; whole events (forward model and random hit patterns) scaled by 2^k, k in {-20,-3,1,2,7,40}: amplitudes scale exactly, t / wire / z unchanged (hook route and hook-free bank route for k=1,2). Non-trivial = distinct waveforms / events with >= 1 non-zero output. Also: every pad waveform length 1..=40; history independence of the wire deconvolution (event A then event B on the same block with other lengths vs a fresh thread); the same block with differing lengths at seam-wrapping and plain placements (bit equality); scaling exponents -40..40 on noise-free events. Round 5: shaped pad waveforms (long negative run then positive tail; large early pulse whose last, positive response bin falls on small non-negative noise; one-signed, alternating, constant, sloping).",
+        rule: "pad waveforms of 1..=700 samples (0..=8 response-shaped pulses of amplitude 1..1e4 at arbitrary positions incl. the last look-ahead samples, noise sigma in {0, 0.5, 3, 30}, integer-rounded and not): pad_deconvolution (hook) vs a naive one-sample-at-a-time greedy reference, bit for bit, plus finiteness / non-negativity / length; wire blocks of every length at every ring position with differing per-wire lengths: channel count, per-channel length, finiteness, non-negativity; isolated wire pulse of amplitude a at k <= len-18 on every wire: recovered a at k (rel. err < 1e-6), < 1e-6 a elsewhere; whole events (forward model and random hit patterns) scaled by 2^k, k in {-20,-3,1,2,7,40}: amplitudes scale exactly, t / wire / z unchanged (hook route and hook-free bank route for k=1,2). Non-trivial = distinct waveforms / events with >= 1 non-zero output. Also: every pad waveform length 1..=40; history independence of the wire deconvolution (event A then event B on the same block with other lengths vs a fresh thread); the same block with differing lengths at seam-wrapping and plain placements (bit equality); scaling exponents -40..40 on noise-free events. Round 5: shaped pad waveforms (long negative run then positive tail; large early pulse whose last, positive response bin falls on small non-negative noise; one-signed, alternating, constant, sloping). Round 7: short shaped waveforms (5..=24 samples: one big positive sample early, then only small negative ones).",
         assumptions: &["response functions re-binned by the harness from the shipped JSON files (16 ns bins, same summation order)", "power-of-two scaling is exact in binary floating point, so bit equality is the right test"],
         profiles: release_only,
         shards: shards16,
